@@ -15,6 +15,7 @@ LEVEL = 'exploration'
 CASE_TIMEOUT = 150
 BATCH_SIZE = {'quick': 3, 'thorough': 10}
 REQUIRED_COUNTERS = ['transformed_runs', 'cell_records_joined',
+                     'runs_on_a_file_rewritten_in_place',
                      'duplicate_rows_compared']
 RULE = ('case = generated world (factor 1; two cells without a single zero; '
         'every other CSR / CSC file with unsorted minor indices) + 8 (quick) / 12 (thorough) '
@@ -215,6 +216,46 @@ def run_case(spec, work):
                 break
         if len(viol) > 6:
             break
+    # the query file rewritten in place with its rows in another order and
+    # mapped again by the same process, both times read where it lies (no
+    # scratch directory): nothing remembered about the earlier content may
+    # leak into the second run
+    if len(viol) <= 6:
+        for step in (0, 1):
+            if step == 1:
+                p = rng.permutation(n)
+                mapworld.write_h5ad(
+                    w.query_path, w.Xq[p], [w.cell_ids[i] for i in p],
+                    w.query_genes, encoding=w.spec['encoding'])
+            wd = mapworld.derive_world(w, f'inplace{step}',
+                                       cfg_updates={'tmp_dir': None})
+            rt = mapworld.run_world(wd, trace=False)
+            if rt['exception'] is not None:
+                sig, last = oracles.exception_signature(rt['traceback'],
+                                                        rt.get('stderr'))
+                viol.append({'sig': 'C06:transformed-run-raises[rewritten-'
+                                    'in-place]', 'msg': f'{sig}: {last}'})
+                break
+            counters['runs_on_a_file_rewritten_in_place'] = step
+            for rec in rt['json']['results']:
+                cid = rec['cell_id']
+                if cid not in base:
+                    viol.append({'sig': 'C06:result-changed[rewritten-in-'
+                                        'place]',
+                                 'msg': f'unknown cell id {cid!r}'})
+                    break
+                counters['cell_records_joined'] = counters.get(
+                    'cell_records_joined', 0) + 1
+                if cid in amb_cells:
+                    continue
+                d = _cmp_records(base[cid], rec, model.hierarchy, tol)
+                if d is not None:
+                    viol.append({
+                        'sig': 'C06:result-changed[rewritten-in-place]',
+                        'msg': f'cell {cid}: {d} after the query file was '
+                               f'rewritten in place with permuted rows '
+                               f'(step {step})'})
+                    break
     feats = mapcases.features_of(spec)
     return {'violations': viol, 'counters': counters, 'dontcare': dontcare,
             'features': feats,
